@@ -21,8 +21,9 @@ FUNCTIONS = [
 ]
 BOUNDS = {
     "quick": "9 families x every proper subset of fixed parameters (incl. none) x method spelling; start values, fixed "
-             "values and 4 data points symbolic; closed-form estimator with 3 data points and symbolic scale factor",
-    "thorough": "as quick with 5 data points and 4 points for the closed form",
+             "values and 4 data points symbolic; closed-form estimator with 3 data points and symbolic scale factor; histories 'fit A (fixed set SA) then fit a fresh B (fixed set SB, |SB|<=1)'",
+    "thorough": "as quick with 5 data points and 4 points for the closed form; all ordered pairs of fixed sets in the "
+                "two-fit history",
 }
 OUTSIDE = [
     "NOT DECIDED (depends on scipy.optimize on concrete data): that the optimiser does not lose likelihood against the "
@@ -52,6 +53,82 @@ def _fixed_slots(fam_scipy, kw):
     return fx
 
 
+def slot_deps(fam):
+    """which virocon parameters each scipy slot depends on (probed numerically on the reference mapping)"""
+    base = {p: 0.5 * (lo + hi) for p, (lo, hi) in fam.ranges.items()}
+    r0 = [float(v) for v in fam.ref(base)]
+    deps = [set() for _ in r0]
+    for p in fam.params:
+        t = dict(base)
+        t[p] = base[p] * 1.37 + 0.11
+        r1 = [float(v) for v in fam.ref(t)]
+        for i in range(len(r0)):
+            if abs(r1[i] - r0[i]) > 1e-12:
+                deps[i].add(p)
+    return deps
+
+
+def _fit_and_log(h, fam, d, data, method):
+    if h.sym:
+        n0 = len(stubs.FIT_LOG)
+        d.fit(data, method)
+        return [dict(c, args=c["shape_starts"], kw={"loc": c["loc_start"], "scale": c["scale_start"]},
+                     fx=list(c["fixed"])) for c in stubs.FIT_LOG[n0:]]
+    with stubs.record_real_fit(fam.scipy) as log:
+        d.fit(data, method)
+    for c in log:
+        c["fx"] = _fixed_slots(fam.scipy, c["kw"])
+    return log
+
+
+def _check_call(h, fam, c, theta0, S, d, tag=""):
+    ref0 = fam.ref(theta0)
+    k = len(ref0) - 2
+    deps = slot_deps(fam)
+    starts = list(c["args"]) + [None] * (k - len(c["args"])) + [c["kw"].get("loc"), c["kw"].get("scale")]
+    for i in range(k + 2):
+        want_fixed = deps[i] <= set(S)
+        is_fixed = c["fx"][i] is not None
+        h.check(want_fixed == is_fixed, tag + "exactly-the-fixed-parameters-are-held-fixed",
+                f"scipy slot {i} (depends on {sorted(deps[i])}): fixed in the call = {is_fixed}, declared fixed = {want_fixed}")
+        if is_fixed:
+            h.close(c["fx"][i], ref0[i], tag + "fixed-value-passed")
+            continue
+        h.check(starts[i] is not None, tag + "start-value-given", f"no start value for free scipy slot {i}")
+        h.close(starts[i], ref0[i], tag + "optimiser-starts-at-current-parameters")
+    back = fam.ref(d.parameters)
+    for i in range(k + 2):
+        h.close(back[i], c["result"][i], tag + "result-round-trip", rtol=1e-9)
+
+
+def h_sequence(h):
+    """history: fit instance A (fixed set SA), then a fresh instance B (fixed set SB) - B's fit is B's own"""
+    fam = FAMILIES[h.cfg["family"]]
+    SA = tuple(p for p in h.cfg["fixedA"].split("+") if p)
+    SB = tuple(p for p in h.cfg["fixedB"].split("+") if p)
+    if h.sym:
+        stubs.install_fit()
+    objs = []
+    for tag, S in (("A", SA), ("B", SB)):
+        fixed = declare_params(h, fam, f"{tag}f_", names=S)
+        start = declare_params(h, fam, f"{tag}s_", names=[p for p in fam.params if p not in S])
+        kw = {f"f_{p}": v for p, v in fixed.items()}
+        kw.update(start)
+        theta0 = dict(start)
+        theta0.update(fixed)
+        objs.append((tag, S, fam.make(**kw), theta0))
+    data = h.reals("d", h.cfg["n"], 0.3, 6.0)
+    for tag, S, d, theta0 in objs:
+        log = _fit_and_log(h, fam, d, data, "mle")
+        h.check(len(log) == 1, "scipy-fit-called-once")
+        _check_call(h, fam, log[0], theta0, S, d, tag=f"{tag}:")
+    h.reach()
+    # and A is still what its own fit made it
+    tagA, SA_, dA, thA = objs[0]
+    for p in SA:
+        h.close(dA.parameters[p], thA[p], "A-fixed-unchanged-by-B")
+
+
 def h_plumbing(h):
     fam = FAMILIES[h.cfg["family"]]
     S = tuple(p for p in h.cfg["fixed"].split("+") if p)
@@ -77,18 +154,7 @@ def h_plumbing(h):
     h.reach()
     h.check(len(log) == 1, "scipy-fit-called-once", "the estimator must run scipy's optimiser exactly once")
     c = log[0]
-    ref0 = fam.ref(theta0)
-    k = len(ref0) - 2
-    starts = list(c["args"]) + [None] * (k - len(c["args"])) + [c["kw"].get("loc"), c["kw"].get("scale")]
-    for i in range(k + 2):
-        if c["fx"][i] is not None:
-            continue
-        h.check(starts[i] is not None, "start-value-given", f"no start value for free scipy slot {i}")
-        h.close(starts[i], ref0[i], "optimiser-starts-at-current-parameters")
-    # result is stored slot by slot: mapping the stored virocon parameters forward reproduces scipy's tuple
-    back = fam.ref(d.parameters)
-    for i in range(k + 2):
-        h.close(back[i], c["result"][i], "result-round-trip", rtol=1e-9)
+    _check_call(h, fam, c, theta0, S, d)
     if h.sym:
         h.check(c["data"] is data, "fitted-on-unmodified-data")
 
@@ -122,4 +188,15 @@ def obligations(tier):
                 continue
             for method in (("mle",) if (tier == "quick" and S) else ("mle", "MLE")):
                 yield ("plumbing", h_plumbing, {"family": fname, "fixed": "+".join(S), "n": n, "method": method}, {})
+    for fname, fam in FAMILIES.items():
+        if fname == "LogNormalNormFit":
+            continue
+        proper = [S for S in subsets(fam.params) if len(S) < len(fam.params)]
+        for SA in proper:
+            for SB in proper:
+                if not SA or SA == SB:
+                    continue
+                if tier == "quick" and len(SB) > 1:
+                    continue
+                yield ("sequence", h_sequence, {"family": fname, "fixedA": "+".join(SA), "fixedB": "+".join(SB), "n": 3}, {})
     yield ("normfit_equivariance", h_normfit_equivariance, {"n": 3 if tier == "quick" else 4}, {})
